@@ -491,7 +491,10 @@ def _find_registered_methods(cls, selector):
           return True
     return False
 
-  for name, method in inspect.getmembers(cls, predicate=is_method):
+  methods = inspect.getmembers(cls, predicate=is_method)
+  # Validate every rename before performing any of them: a rejected class
+  # registration must leave the registry as it was.
+  for name, method in methods:
     if method in _INVERSE_REGISTRY:
       method_info = _INVERSE_REGISTRY[method]
       if method_info.module not in (method.__module__, selector):
@@ -500,6 +503,17 @@ def _find_registered_methods(cls, selector):
             f'custom module ({method_info.module}), but the class is also '
             f'being registered. Avoid specifying a module on the method to '
             f'allow class registration to modify the method module name.')
+      new_selector = selector + '.' + method_info.name
+      if (not _INTERACTIVE_MODE and new_selector in _REGISTRY and
+          _REGISTRY[new_selector].wrapped is not method):
+        raise ValueError(
+            f"A different configurable matching '{new_selector}' already "
+            f'exists, but method {name} of class {cls} ({selector}) would be '
+            f'registered under this name.')
+
+  for name, method in methods:
+    if method in _INVERSE_REGISTRY:
+      method_info = _INVERSE_REGISTRY[method]
       old_selector = method_info.selector
       new_selector = selector + '.' + method_info.name
       method_info = method_info._replace(
